@@ -185,19 +185,28 @@ Section Decide.
   Variable em : list (list Z * list Z).
   Variable rm : list (Z * list Z).
 
+  (* lb: the look-behind from the '&' found an ampersand sequence (or was too far to tell) *)
+  Variable lb : bool.
+
+  Definition dguard (off : Z) (r : list Z) : decision :=
+    match r with
+    | c :: _ => if cont_start c && lb then Keep off else Repl off r
+    | [] => Repl off r
+    end.
+
   Definition dfinish (u : list Z) (off : Z) (r : list Z) : decision :=
     if (off <? len u) && (getz u off =? 59) && (2 <? off + 1) then
       match r with
       | [c] =>
           match lookup_byte rm c with
-          | Some q => if list_eqb q (slice u 0 (off + 1)) then Keep off else Repl off q
+          | Some q => if list_eqb q (slice u 0 (off + 1)) then Keep off else dguard off q
           | None =>
               if c =? 38 then
                 let k := off + 1 in
-                if (k <? len u) && (is_alnum (getz u k) || (getz u k =? 35)) then Keep k else Repl off r
-              else Repl off r
+                if (k <? len u) && (is_alnum (getz u k) || (getz u k =? 35)) then Keep k else dguard off r
+              else dguard off r
           end
-      | _ => Repl off r
+      | _ => dguard off r
       end
     else Keep 0.
 
@@ -226,10 +235,17 @@ Section Decide.
     | Repl off r => splice (P ++ l) (len P) (len P + off) r
     end.
 
-  Lemma ent_finish_dec P u w off r : stop_tail w -> 0 <= off <= len u ->
+  Lemma guard_dec P l off r : look_behind (rev P) 1 = lb ->
+    guard_splice (P ++ l) (len P) (len P + off) r = apply_dec P l (dguard off r).
+  Proof.
+    intros Hlb. unfold guard_splice, dguard. rewrite firstz_app_len, Hlb.
+    destruct r as [|c r']; [reflexivity|]. destruct (cont_start c && lb); reflexivity.
+  Qed.
+
+  Lemma ent_finish_dec P u w off r : look_behind (rev P) 1 = lb -> stop_tail w -> 0 <= off <= len u ->
     ent_finish rm (P ++ u ++ w) (len P) (len P + off) r = apply_dec P (u ++ w) (dfinish u off r).
   Proof.
-    intros Hw Hoff. pose proof (len_nonneg P). pose proof (len_nonneg w). pose proof (len_nonneg u).
+    intros Hlb Hw Hoff. pose proof (len_nonneg P). pose proof (len_nonneg w). pose proof (len_nonneg u).
     unfold ent_finish, dfinish.
     replace (len P + off + 1 - len P) with (off + 1) by lia.
     rewrite getz_shift by lia. rewrite (getz_tail_59 u w Hw) by lia.
@@ -238,12 +254,13 @@ Section Decide.
       replace (len P + off <? len (P ++ u ++ w)) with true by (rewrite !len_app; lia).
       replace (off <? len u) with true by lia. cbn [andb].
       destruct (2 <? off + 1); [|cbn [apply_dec]; rewrite Z.add_0_r; reflexivity].
-      destruct r as [|c [|c2 r2]]; try reflexivity.
+      destruct r as [|c [|c2 r2]]; try (apply guard_dec; exact Hlb).
       destruct (lookup_byte rm c) as [q|].
       + replace (len P + off + 1) with (len P + (off + 1)) by lia.
         rewrite slice_shift0. rewrite slice_app_l by lia.
-        destruct (list_eqb q (slice u 0 (off + 1))); reflexivity.
-      + destruct (c =? 38); [|reflexivity].
+        destruct (list_eqb q (slice u 0 (off + 1))); [reflexivity|].
+        replace (len P + (off + 1)) with (len P + off + 1) by lia. apply guard_dec; exact Hlb.
+      + destruct (c =? 38); [|apply guard_dec; exact Hlb].
         replace (len P + off + 1) with (len P + (off + 1)) by lia.
         rewrite getz_shift by lia.
         rewrite (getz_tail_alnum u w Hw) by lia. rewrite (getz_tail_35 u w Hw) by lia.
@@ -252,14 +269,14 @@ Section Decide.
           { apply getz_nonzero. intros Z0. rewrite Z0 in G. discriminate G. }
           replace (len P + (off + 1) <? len (P ++ u ++ w)) with true by (rewrite !len_app; lia).
           replace (off + 1 <? len u) with true by lia. reflexivity.
-        * rewrite !andb_false_r. reflexivity.
+        * rewrite !andb_false_r. replace (len P + (off + 1)) with (len P + off + 1) by lia. apply guard_dec; exact Hlb.
     - rewrite !andb_false_r. cbn [andb apply_dec]. rewrite Z.add_0_r. reflexivity.
   Qed.
 
-  Lemma replace_at_dec P u w : stop_tail w -> 1 <= len u -> 3 < len u + len w ->
+  Lemma replace_at_dec P u w : look_behind (rev P) 1 = lb -> stop_tail w -> 1 <= len u -> 3 < len u + len w ->
     replace_at em rm (P ++ u ++ w) (len P) = apply_dec P (u ++ w) (decide u).
   Proof.
-    intros Hw Hu Hl. pose proof (len_nonneg P). pose proof (len_nonneg w).
+    intros Hlb Hw Hu Hl. pose proof (len_nonneg P). pose proof (len_nonneg w).
     unfold replace_at, decide.
     rewrite rd_shift by lia. rewrite rd_getz by (rewrite len_app; lia). cbn [rbind].
     rewrite (getz_tail_35 u w Hw) by lia.
@@ -276,7 +293,7 @@ Section Decide.
         replace (len P + 3 + nd <=? len P + 3) with (3 + nd <=? 3) by lia.
         destruct ((3 + nd <=? 3) || (10000 <=? c)).
         * cbn [apply_dec]. f_equal. f_equal. lia.
-        * replace (len P + 3 + nd) with (len P + (3 + nd)) by lia. apply ent_finish_dec; [exact Hw|lia].
+        * replace (len P + 3 + nd) with (len P + (3 + nd)) by lia. apply ent_finish_dec; [exact Hlb|exact Hw|lia].
       + rewrite skipz_add by lia. rewrite skipz_app_le by lia. rewrite (scan_dec_tail w _ Hw).
         destruct (scan_dec (skipz 2 u) 0) as [nd c] eqn:E.
         pose proof (scan_dec_bound _ _ _ _ (Z.le_refl 0) E) as [Hn0 _]. pose proof (scan_dec_le _ _ _ _ E) as Hn1.
@@ -284,7 +301,7 @@ Section Decide.
         replace (len P + 2 + nd <=? len P + 2) with (2 + nd <=? 2) by lia.
         destruct ((2 + nd <=? 2) || (128 <=? c)).
         * cbn [apply_dec]. f_equal. f_equal. lia.
-        * replace (len P + 2 + nd) with (len P + (2 + nd)) by lia. apply ent_finish_dec; [exact Hw|lia].
+        * replace (len P + 2 + nd) with (len P + (2 + nd)) by lia. apply ent_finish_dec; [exact Hlb|exact Hw|lia].
     - rewrite skipz_add by lia. rewrite skipz_app_le by lia. rewrite (scan_name_tail w _ Hw).
       pose proof (scan_name_nonneg (skipz 1 u) 0) as Hn0. pose proof (scan_name_le (skipz 1 u) 0) as Hn1.
       rewrite len_skipz in Hn1 by lia.
@@ -300,26 +317,31 @@ Section Decide.
         * cbn [apply_dec]. rewrite Z.add_0_r. reflexivity.
         * replace (len P + 1) with (len P + 1) by lia. rewrite slice_shift by lia. rewrite slice_app_l by lia.
           destruct (lookup_name em (slice u 1 (1 + n))) as [r|]; [|reflexivity].
-          apply ent_finish_dec; [exact Hw|lia].
+          apply ent_finish_dec; [exact Hlb|exact Hw|lia].
       + cbn [negb]. rewrite !orb_true_r. cbn [apply_dec]. rewrite Z.add_0_r. reflexivity.
   Qed.
 End Decide.
 
 (* ---- facts about the decision -------------------------------------------------------------------------- *)
-Lemma dfinish_range rm u off r : 1 <= len u -> 0 <= off ->
-  match dfinish rm u off r with Keep d => 0 <= d < len u | Repl o _ => 2 <= o < len u end.
+Lemma dguard_range lb (u : list Z) off r : 0 <= off < len u -> 2 <= off ->
+  match dguard lb off r with Keep d => 0 <= d < len u | Repl o _ => 2 <= o < len u end.
+Proof. intros H H2. unfold dguard. destruct r as [|c r']; [lia|]. destruct (cont_start c && lb); lia. Qed.
+
+Lemma dfinish_range rm lb u off r : 1 <= len u -> 0 <= off ->
+  match dfinish rm lb u off r with Keep d => 0 <= d < len u | Repl o _ => 2 <= o < len u end.
 Proof.
   intros Hu Hoff. unfold dfinish.
   destruct ((off <? len u) && (getz u off =? 59) && (2 <? off + 1)) eqn:C; [|lia].
-  destruct r as [|c [|c2 r2]]; try lia.
+  destruct r as [|c [|c2 r2]]; try (apply dguard_range; lia).
   destruct (lookup_byte rm c) as [q|].
-  - destruct (list_eqb q (slice u 0 (off + 1))); lia.
-  - destruct (c =? 38); [|lia].
-    destruct ((off + 1 <? len u) && (is_alnum (getz u (off + 1)) || (getz u (off + 1) =? 35))) eqn:G; lia.
+  - destruct (list_eqb q (slice u 0 (off + 1))); [lia|apply dguard_range; lia].
+  - destruct (c =? 38); [|apply dguard_range; lia].
+    destruct ((off + 1 <? len u) && (is_alnum (getz u (off + 1)) || (getz u (off + 1) =? 35))) eqn:G;
+      [lia|apply dguard_range; lia].
 Qed.
 
-Lemma decide_range em rm u : 1 <= len u ->
-  match decide em rm u with Keep d => 0 <= d < len u | Repl o _ => 2 <= o < len u end.
+Lemma decide_range em rm lb u : 1 <= len u ->
+  match decide em rm lb u with Keep d => 0 <= d < len u | Repl o _ => 2 <= o < len u end.
 Proof.
   intros Hu. unfold decide.
   destruct (getz u 1 =? 35) eqn:E1.
@@ -341,6 +363,43 @@ Proof.
     destruct (lookup_name em (slice u 1 (1 + n))); [apply dfinish_range; lia|lia].
 Qed.
 
+(* the look-behind only turns replacements into "keep" *)
+Definition repl_of_false (d d0 : decision) : Prop :=
+  match d with Repl o r => d0 = Repl o r | Keep _ => True end.
+
+Lemma dguard_false lb off r : repl_of_false (dguard lb off r) (dguard false off r).
+Proof.
+  unfold dguard, repl_of_false. destruct r as [|c r']; [reflexivity|]. rewrite andb_false_r.
+  destruct (cont_start c && lb); [exact I|reflexivity].
+Qed.
+
+Lemma repl_of_false_keep d k : repl_of_false (Keep k) d.
+Proof. exact I. Qed.
+
+Lemma dfinish_false rm lb u off r : repl_of_false (dfinish rm lb u off r) (dfinish rm false u off r).
+Proof.
+  unfold dfinish.
+  destruct ((off <? len u) && (getz u off =? 59) && (2 <? off + 1)); [|exact I].
+  destruct r as [|c [|c2 r2]]; try apply dguard_false.
+  destruct (lookup_byte rm c) as [q|].
+  - destruct (list_eqb q (slice u 0 (off + 1))); [exact I|apply dguard_false].
+  - destruct (c =? 38); [|apply dguard_false].
+    destruct ((off + 1 <? len u) && (is_alnum (getz u (off + 1)) || (getz u (off + 1) =? 35))); [exact I|apply dguard_false].
+Qed.
+
+Lemma decide_false em rm lb u : repl_of_false (decide em rm lb u) (decide em rm false u).
+Proof.
+  unfold decide.
+  destruct (getz u 1 =? 35).
+  - destruct (getz u 2 =? 120).
+    + destruct (scan_hex (skipz 3 u) 0) as [nd c].
+      destruct ((3 + nd <=? 3) || (10000 <=? c)); [exact I|apply dfinish_false].
+    + destruct (scan_dec (skipz 2 u) 0) as [nd c].
+      destruct ((2 + nd <=? 2) || (128 <=? c)); [exact I|apply dfinish_false].
+  - destruct ((1 + scan_name (skipz 1 u) 0 =? 1) || negb (getz u (1 + scan_name (skipz 1 u) 0) =? 59)); [exact I|].
+    destruct (lookup_name em (slice u 1 (1 + scan_name (skipz 1 u) 0))); [apply dfinish_false|exact I].
+Qed.
+
 Lemma splice_ok_inv b i j r x : splice b i j r = Ok x -> len r <= j + 1 - i.
 Proof.
   unfold splice. destruct (copy_in b i r) as [[b1 m1]| |]; cbn [rbind]; try discriminate.
@@ -349,12 +408,13 @@ Proof.
     [|discriminate]. intros _. lia.
 Qed.
 
-Lemma decide_repl_len em rm u off r : maps_ok em rm = true -> 1 <= len u ->
-  decide em rm u = Repl off r -> len r <= off + 1.
+Lemma decide_repl_len em rm lb u off r : maps_ok em rm = true -> 1 <= len u ->
+  decide em rm lb u = Repl off r -> len r <= off + 1.
 Proof.
-  intros Hok Hu Hd. pose proof (decide_range em rm u Hu) as R. rewrite Hd in R.
+  intros Hok Hu Hd0. pose proof (decide_false em rm lb u) as F. rewrite Hd0 in F. cbn [repl_of_false] in F.
+  rename F into Hd. pose proof (decide_range em rm false u Hu) as R. rewrite Hd in R.
   assert (Hw : stop_tail [32]) by (apply stop_tail_ws; reflexivity).
-  pose proof (replace_at_dec em rm [] u [32] Hw Hu) as E.
+  pose proof (replace_at_dec em rm false [] u [32] eq_refl Hw Hu) as E.
   change (len [32]) with 1 in E. specialize (E ltac:(lia)). rewrite Hd in E. cbn [apply_dec app] in E.
   change (len (@nil Z)) with 0 in E.
   destruct (replace_at_ok em rm Hok (u ++ [32]) 0) as (b' & i' & E2 & _); [lia|rewrite len_app; change (len [32]) with 1; lia|].
@@ -365,22 +425,23 @@ Qed.
 Definition emitted (u : list Z) (d : decision) : list Z * Z :=
   match d with Keep d => (firstz (d + 1) u, d + 1) | Repl off r => (r, off + 1) end.
 
-Lemma replace_at_next em rm u w : maps_ok em rm = true -> stop_tail w -> 1 <= len u -> 3 < len u + len w ->
-  let '(X, m) := emitted u (decide em rm u) in
+Lemma replace_at_next em rm lb u w : maps_ok em rm = true -> stop_tail w -> 1 <= len u -> 3 < len u + len w ->
+  let '(X, m) := emitted u (decide em rm lb u) in
   1 <= m <= len u /\
-  (forall d, decide em rm u = Keep d -> X ++ skipz m u = u) /\
-  forall P, replace_at em rm (P ++ u ++ w) (len P) = Ok ((P ++ X) ++ skipz m u ++ w, len (P ++ X) - 1).
+  (forall d, decide em rm lb u = Keep d -> X ++ skipz m u = u) /\
+  forall P, look_behind (rev P) 1 = lb ->
+    replace_at em rm (P ++ u ++ w) (len P) = Ok ((P ++ X) ++ skipz m u ++ w, len (P ++ X) - 1).
 Proof.
-  intros Hok Hw Hu Hl. pose proof (decide_range em rm u Hu) as R.
-  destruct (decide em rm u) as [d|off r] eqn:Hd; cbn [emitted].
+  intros Hok Hw Hu Hl. pose proof (decide_range em rm lb u Hu) as R.
+  destruct (decide em rm lb u) as [d|off r] eqn:Hd; cbn [emitted].
   - split; [lia|]. split; [intros d0 _; symmetry; apply split_at|].
-    intros P. rewrite (replace_at_dec em rm P u w Hw Hu Hl), Hd. cbn [apply_dec].
+    intros P HP. rewrite (replace_at_dec em rm lb P u w HP Hw Hu Hl), Hd. cbn [apply_dec].
     f_equal. f_equal.
     + rewrite <- !app_assoc. f_equal. rewrite app_assoc. f_equal. apply split_at.
     + rewrite len_app, len_firstz by lia. lia.
-  - pose proof (decide_repl_len em rm u off r Hok Hu Hd) as Hr.
+  - pose proof (decide_repl_len em rm lb u off r Hok Hu Hd) as Hr.
     split; [lia|]. split; [intros d0 Hd0; discriminate|].
-    intros P. rewrite (replace_at_dec em rm P u w Hw Hu Hl), Hd. cbn [apply_dec].
+    intros P HP. rewrite (replace_at_dec em rm lb P u w HP Hw Hu Hl), Hd. cbn [apply_dec].
     pose proof (len_nonneg P). pose proof (len_nonneg w). pose proof (len_nonneg r).
     rewrite splice_spec by (rewrite ?len_app; lia).
     rewrite firstz_app_len. replace (len P + off + 1) with (len P + (off + 1)) by lia.
